@@ -545,7 +545,9 @@ def check_history(ctx, judge, md, scratch, init, ops, model_reply, label, only_c
                 continue
             mine = [eff_str(rec.effects[k - 1]), file_str(content), reader, reopen[0], ref.classify(reader)]
             for name, a, b in zip(('effect', 'file', 'file reader', 'reopen', 'classification'), m, mine):
-                if a != b:
+                if a == '!Timeout' or (name == 'classification' and m[2] == '!Timeout'):
+                    ctx.count('cut-leaves-the-model')      # negative length field / header: not modelled
+                elif a != b:
                     ctx.diverge(head + '%s: model %s, implementation %s' % (name, short_triples(a, 200), short_triples(b, 200)), case)
     scratch.put(fname, None)
     return rec
